@@ -49,6 +49,10 @@ Next ==
     /\ LET ev == Tr[l] IN
        IF ev.e = "Num" THEN Judge(ev, NumExpected(ev), NumObserved(ev), NumClass(ev))
        ELSE IF ev.e = "Enc" THEN Judge(ev, EncExpected(ev), EncObserved(ev), EncClass(ev))
+       ELSE IF ev.e = "Crashed" THEN
+            /\ divs' = Append(divs, [line |-> l, id |-> ev.e, what |-> "crash (signal, abort or uncaught exception)", expected |-> <<>>,
+                                     observed |-> [crashed |-> ev, previous |-> IF l > 1 THEN Tr[l - 1] ELSE ev]])
+            /\ UNCHANGED <<cov, stats>>
        ELSE /\ divs' = Append(divs, [line |-> l, id |-> ev.e, what |-> "unexpected event", expected |-> <<>>, observed |-> ev])
             /\ UNCHANGED <<cov, stats>>
 
